@@ -72,15 +72,24 @@ static int norm_words(const vd_result *res, const vfsa *truth, int *labels, char
 }
 
 /* ============================= C01 ============================= */
+/* the hypothesis string with filler words removed (C01 speaks of both the string and the segmentation "with fillers removed";
+ * that the string contains no filler in the first place is C03's clause) */
+static const char *hyp_without_fillers(const vd_result *res, char *buf, size_t n)
+{
+    const char *p = res->has_hyp ? res->hyp : ""; size_t o = 0; buf[0] = 0;
+    while (*p) { const char *e; char tok[400]; while (*p == ' ') ++p; if (!*p) break; e = p; while (*e && *e != ' ') ++e; snprintf(tok, sizeof(tok), "%.*s", (int)(e - p < 399 ? e - p : 399), p); if (!vd_is_filler_word(tok) && o + strlen(tok) + 2 < n) o += (size_t)snprintf(buf + o, n - o, "%s%s", o ? " " : "", tok); p = e; }
+    return buf;
+}
 static void mon_c01(ctx *c, int final, const vd_result *res)
 {
-    int labels[256], n; char joined[4096];
+    int labels[256], n; char joined[4096], hnf[4096];
     n = norm_words(res, &c->g->truth, labels, joined, sizeof(joined), 256);
     if (n > 256) { vh_inconc("more than 256 words in a result"); return; }
+    hyp_without_fillers(res, hnf, sizeof(hnf));
     if (final) {
         if (res->nseg == 0 && !res->has_hyp) { vh_count("final_no_hypothesis", 1); return; }
         /* hypothesis string and segmentation must agree on the words */
-        if (strcmp(res->has_hyp ? res->hyp : "", joined) != 0)
+        if (strcmp(hnf, joined) != 0)
             vh_viol("hyp_seg_word_mismatch", "final hypothesis \"%s\" but the segmentation's words are \"%s\" [%s]", res->has_hyp ? res->hyp : "(none)", joined, c->g->desc);
         if (vfsa_accepts(&c->g->truth, labels, n, 1) != 1)
             vh_viol(vh_path("final_not_a_sentence|%s", vd_gram_kind_name(c->g->kind)), "final result \"%s\" is not accepted start->final by the active grammar\n%.900s", joined, c->g->text.s);
@@ -89,7 +98,7 @@ static void mon_c01(ctx *c, int final, const vd_result *res)
         c->nfinal_words = n;
     } else {
         if (res->nseg == 0 && !res->has_hyp) { vh_count("partial_no_hypothesis", 1); return; }
-        if (strcmp(res->has_hyp ? res->hyp : "", joined) != 0)
+        if (strcmp(hnf, joined) != 0)
             vh_viol("hyp_seg_word_mismatch", "partial hypothesis \"%s\" but the segmentation's words are \"%s\"", res->has_hyp ? res->hyp : "(none)", joined);
         if (vfsa_accepts(&c->g->truth, labels, n, 0) != 1)
             vh_viol(vh_path("partial_not_a_path|%s", vd_gram_kind_name(c->g->kind)), "partial result \"%s\" labels no path leaving the grammar's start state\n%.900s", joined, c->g->text.s);
@@ -387,6 +396,14 @@ static void mon_c12(ctx *c, lgraph *g)
         { latnode_t *src = NULL, *dst = ps_latlink_nodes(best, &src); if (dst != dag->end) vh_viol("bestpath_not_at_end", "the best-path link does not enter the end node"); }
         free(bestin);
         vh_count("bestpaths_checked", 1);
+    }
+    /* a caller may walk the edges itself and stop half-way (the traversal state lives in the lattice): what comes next must not care */
+    if (vh_chance(c->r, 0.25)) {
+        int steps = vh_range(c->r, 0, 8), q; latlink_t *l;
+        vh_ctx("lattice_traverse_edges(abandoned)");
+        if (vh_chance(c->r, 0.5)) { for (l = lattice_traverse_edges(dag, NULL, NULL), q = 0; l && q < steps; l = lattice_traverse_next(dag, NULL), ++q) ; }
+        else { for (l = lattice_reverse_edges(dag, NULL, NULL), q = 0; l && q < steps; l = lattice_reverse_next(dag, NULL), ++q) ; }
+        vh_count("abandoned_edge_traversals", 1);
     }
     vh_ctx("lattice_posterior");
     post = lattice_posterior(dag, ascale);
